@@ -190,12 +190,15 @@ func spellArgs(r *prng.R, flags string, file string, extra []string) []string {
 	at := r.Intn(len(items) + 1)
 	var args []string
 	args = append(args, items[:at]...)
-	if at == len(items) && r.Chance(1, 3) {
+	lead := at == len(items) && r.Chance(1, 3)
+	if lead {
 		args = append(args, "--")
 	}
 	args = append(args, file)
-	if at == len(items) && r.Chance(1, 8) {
-		args = append(args, "--") // a terminator with nothing after it changes nothing
+	if at == len(items) && !lead && r.Chance(1, 8) {
+		// a terminator with nothing after it changes nothing - unless it is the second one:
+		// after the first "--" a further "--" is a file name
+		args = append(args, "--")
 	}
 	args = append(args, items[at:]...)
 	return args
